@@ -34,12 +34,13 @@ func upTok(i *message.UpstreamInfo) int { return upTokOfStream(i.StreamID) }
 func upTokOfStream(id uuid.UUID) int { return int(id[0])<<8 | int(id[1]) }
 
 type impl struct {
-	b       *broker.Broker
-	conn    *iscp.Conn
-	down    *iscp.Downstream
-	logPos  int
-	alias   uint32
-	starved bool // a read timed out in this case
+	b          *broker.Broker
+	conn       *iscp.Conn
+	down       *iscp.Downstream
+	logPos     int
+	alias      uint32
+	starved    bool // a read timed out in this case
+	lastAckInc int
 	// oracle bookkeeping
 	sent      []string            // chunks sent by the broker, in order: "seq/up"
 	sentOps   map[string][]string // sequence number -> [upstream word, groups word] of the chunk ops carrying it
@@ -147,14 +148,24 @@ func (i *impl) collectAcks(h *lp.H, wantRes int, expectAny bool) string {
 			if !ok {
 				continue
 			}
+			lostInFlight := a.AckID == i.lastAckID+2 && r.Inc != i.lastAckInc
 			if m.n == 0 {
 				m.first = a.AckID
-			} else if a.AckID != m.last+1 {
+				if lostInFlight {
+					before++
+				}
+			} else if a.AckID != m.last+1 && !lostInFlight {
 				m.gap = true
 			}
-			if a.AckID != i.lastAckID+1 {
+			switch {
+			case a.AckID == i.lastAckID+1:
+			case lostInFlight:
+				// one ack was on its way when the transport was cut: the broker never saw it (the client numbered it all the same)
+				h.Count("ack-lost-in-flight-at-kill")
+			default:
 				h.Violate(fmt.Sprintf("ack ids do not increase strictly by one from 1: %d follows %d", a.AckID, i.lastAckID))
 			}
+			i.lastAckInc = r.Inc
 			i.lastAckID = a.AckID
 			m.last = a.AckID
 			m.n++
@@ -317,7 +328,7 @@ func (i *impl) exec(h *lp.H, op string) string {
 									announced = true
 								}
 							}
-							if !announced {
+							if !announced && al >= 50 { // 50.. are the aliases the generator uses as never-announced ones
 								h.Violate(fmt.Sprintf("chunk %d group %d was sent under data id alias %d, which the client never announced or pre-registered: the read must fail, it returned the chunk (group delivered under data id %q)", c.SequenceNumber, gi, al, c.DataPointGroups[gi].DataID.Name))
 							}
 							for tok, a := range i.idAlias {
